@@ -67,6 +67,10 @@ CLAIMED = {
  "C35": dict(
    text="LEB128: for every uint32/uint64/int32/int64 the real Append* followed by Read* (with arbitrary trailing bytes) returns the same integer and the encoded length, the encoding has the canonical length, and the decoders never crash or over-read on any buffer of <= 11 bytes; AppendUint32FixedLength for every length 0..5.",
    note="Part of C35 only: LEB128 (full integer width; decoder buffers <= 11 bytes) and the instruction codec: for every instruction type found in bbq/opcode by go/types, Encode then DecodeInstruction returns the same instruction with the same operands and consumes exactly the encoding (operand arrays of length 0..2, thorough 3), plus PatchJumpBytecode. Compilation determinism is outside the claim (compiler over program ASTs is not encodable).", design="3 C35"),
+ "C51": dict(
+   text="Internal ordered collections against list models: the real common/orderedmap (Set/Delete/Get/Clear/Contains/Len, Oldest..Newest iteration order, ForAnyKey/ForAllKeys/KeySetIsDisjointFrom, from the zero value and from New()), common/persistent OrderedSet chains (Add/Contains/IsEmpty/ForEach order over up to 3 cloned levels) and common/bimap (Insert/Delete/DeleteInverse/Get/GetInverse stay a bijection) for every sequence of <=3 (thorough 4) operations with symbolic keys and values; no operation crashes.",
+   note="Sequences of <=3 (4) operations; Go's builtin map is modelled as an association list with symbolic key equality. The interval tree (draws from global math/rand, no native replay), 'few thousand operations' and key types other than integers are outside.",
+   design="3 C51"),
  "C46": dict(
    text="Bounded symbolic model checking of the real rlp.ReadSize/DecodeString/DecodeList SSA: for every input of the stated lengths (all byte values, incl. 8-byte length prefixes up to 2^64-1) an SMT solver shows no run-time panic is reachable and acceptance/result equal an independent reference decoder; every feasible path is also replayed natively.",
    note="Bounds: input length <= 10 (quick) / 14 (thorough) for strings and headers, <= 4 / 5 for unconstrained lists plus lists with a long-form first item up to 10 / 12 bytes. Trusted: go/ssa, my SSA->SMT executor (validated per path against the native build), z3/cvc5. The Cadence wrappers RLPDecodeString/RLPDecodeList are checked too (accept iff the library accepts and consumed all bytes, user error otherwise, same payload/items) with byte arrays as plain element lists symbolically and real atree-backed arrays natively, inputs <= 6/4 bytes.",
@@ -100,7 +104,6 @@ NA_REASON = {
  "C43": "JSON vs CCF agreement over value graphs",
  "C44": "fxamacker/cbor streaming codec; cross-version stability needs a stored corpus",
  "C48": "program-level (events)", "C49": "program-level (attachments)", "C50": "program-level (access modifiers)",
- "C51": "not built yet",
  "C52": "program-level (evaluation order)",
 }
 
